@@ -1116,6 +1116,88 @@ func checkC09Overloads(c *Check, L *Loaded) {
 	default:
 		r.Decide(len(bad) == 0, "parser.(*parser).insertOperatorOverload|comparator", fi.Decl.Pos(), fmt.Sprintf("%d insertion orders of 6 declarations: the table stays non-generic before generic, more Referenz parameters first", len(orders)), strings.Join(firstN(bad, 2), "; ")+": the lookup, which stops at the first generic overload and takes the first match, can skip or prefer the wrong overload")
 	}
+	// R9.8b: every candidate overload is unified against an EMPTY table of type-parameter bindings: in the loop over the
+	// candidates the table handed to UnifyGenericType is cleared or freshly made, unconditionally, before the first
+	// unification of the iteration. A binding left over from a rejected candidate makes the next generic candidate fail
+	// although its parameter types equal the operand types, and the built-in meaning of the operator is used instead.
+	for _, name := range []string{"findOverload", "findOverloadCast"} {
+		f := L.Fn("src/parser/typechecker.(*Typechecker)." + name)
+		if f == nil {
+			continue
+		}
+		info := f.Pkg.TypesInfo
+		found := false
+		ast.Inspect(f.Decl.Body, func(n ast.Node) bool {
+			rs, ok := n.(*ast.RangeStmt)
+			if !ok {
+				return true
+			}
+			// the binding tables unified against inside this loop
+			tables := map[types.Object]bool{}
+			ast.Inspect(rs.Body, func(m ast.Node) bool {
+				if call, ok := m.(*ast.CallExpr); ok {
+					if fn := Callee(info, call); fn != nil && nameIs(fn, "UnifyGenericType") && len(call.Args) == 3 {
+						if id, ok := ast.Unparen(call.Args[2]).(*ast.Ident); ok {
+							tables[info.Uses[id]] = true
+						}
+					}
+				}
+				return true
+			})
+			if len(tables) == 0 {
+				return true
+			}
+			found = true
+			for tbl := range tables {
+				fresh, okAll := false, true
+				for _, st := range rs.Body.List {
+					// a top-level clear(tbl) / tbl = make(...) / tbl := make(...)
+					switch x := st.(type) {
+					case *ast.ExprStmt:
+						if call, ok := x.X.(*ast.CallExpr); ok {
+							if id, ok := ast.Unparen(call.Fun).(*ast.Ident); ok && id.Name == "clear" && len(call.Args) == 1 {
+								if aid, ok := ast.Unparen(call.Args[0]).(*ast.Ident); ok && info.Uses[aid] == tbl {
+									fresh = true
+								}
+							}
+						}
+					case *ast.AssignStmt:
+						for i, l := range x.Lhs {
+							if lid, ok := l.(*ast.Ident); ok && (info.Defs[lid] == tbl || info.Uses[lid] == tbl) && i < len(x.Rhs) {
+								if call, ok := ast.Unparen(x.Rhs[i]).(*ast.CallExpr); ok {
+									if id, ok := ast.Unparen(call.Fun).(*ast.Ident); ok && id.Name == "make" {
+										fresh = true
+									}
+								}
+								if _, isLit := ast.Unparen(x.Rhs[i]).(*ast.CompositeLit); isLit {
+									fresh = true
+								}
+							}
+						}
+					}
+					uses := false
+					ast.Inspect(st, func(m ast.Node) bool {
+						if call, ok := m.(*ast.CallExpr); ok {
+							if fn := Callee(info, call); fn != nil && nameIs(fn, "UnifyGenericType") && len(call.Args) == 3 {
+								if id, ok := ast.Unparen(call.Args[2]).(*ast.Ident); ok && info.Uses[id] == tbl {
+									uses = true
+								}
+							}
+						}
+						return true
+					})
+					if uses && !fresh {
+						okAll = false
+					}
+				}
+				r.Decide(okAll, "typechecker.(*Typechecker)."+name+"|bindings emptied per candidate", rs.Pos(), "the table of type-parameter bindings is cleared or made anew at the top of every iteration", "a candidate overload is unified against type-parameter bindings that an earlier, rejected candidate may have left behind (the table is not unconditionally emptied at the top of the iteration): a generic overload whose parameter types equal the operand types is rejected and the built-in operator is applied instead")
+			}
+			return false // the loop over the candidates is the outermost one; inner loops (over the operands) belong to one candidate
+		})
+		if !found {
+			r.Und("typechecker.(*Typechecker)."+name+"|bindings emptied per candidate", f.Decl.Pos(), "no unification inside a loop over the candidates found")
+		}
+	}
 	// selection by equality
 	for _, name := range []string{"findOverload", "findOverloadCast"} {
 		f := L.Fn("src/parser/typechecker.(*Typechecker)." + name)
